@@ -65,9 +65,13 @@ structure Sys where
   net : List Packet        -- every packet `a` handed to its transport for the substream, in order (monotone)
   accepted : List Bytes    -- the non-empty messages whose `send` returned
   nrel : Nat               -- ghost: how many packets `b`'s window has released so far
+  pend : List Frag := []   -- the fragments the `send` in progress at `a` still has to emit (the local state of its loop)
 
 inductive SysOp where
-  | send (now : Time) (data : Bytes)   -- `await a.send(data, sub)`
+  | send (now : Time) (data : Bytes)   -- `await a.send(data, sub)` with nothing happening between its fragments
+  | begin (now : Time) (data : Bytes)  -- the same call, up to its fragment loop (state check, send lock, split)
+  | frag (now : Time)                  -- one turn of that loop: `send_fragment` of the next fragment
+  | ping (now : Time)                  -- the keep-alive timer of `a` fires: `send_ping()` (numbered from substream 0's counter)
   | deliver (j : Nat)                  -- the network hands a copy of `net[j]` to `b`
 
 /-- `send` raises before doing anything (closed connection / invalid substream) -/
@@ -75,9 +79,22 @@ def sendRefused (c : Conn) (sub : Nat) : Bool := decide (c.state ≠ STATE_CONNE
 
 def Sys.step (env : Env) (sub : Nat) (s : Sys) : SysOp → Sys
   | .send now data =>
+    if !s.pend.isEmpty then s else     -- another `send` holds the substream's lock
     let r := s.a.send env now data sub
     { s with a := r.c, net := s.net ++ emitted r,
              accepted := if r.err.isNone && !data.isEmpty then s.accepted ++ [data] else s.accepted }
+  | .begin _ data =>
+    if !s.pend.isEmpty || sendRefused s.a sub then s else
+    { s with pend := split s.a.fragmentSize data, accepted := if data.isEmpty then s.accepted else s.accepted ++ [data] }
+  | .frag now =>
+    match s.pend with
+    | [] => s
+    | f :: fs =>
+      let r := s.a.sendPacket env now (dataPacket sub f)
+      { s with a := r.c, net := s.net ++ emitted r, pend := fs }
+  | .ping now =>
+    let r := s.a.sendPing env now
+    { s with a := r.c, net := s.net ++ emitted r }
   | .deliver j =>
     match s.net[j]? with
     | none => s
@@ -92,10 +109,17 @@ def Sys.run (env : Env) (sub : Nat) (s : Sys) (ops : List SysOp) : Sys := ops.fo
 
 /-- the hypotheses on a step: a `send` is either refused at once or runs to its end on a live link (an exception from the
     transport in the middle of a message is excluded: it leaves a hole in the id sequence — the connection is dead for
-    the application that saw the exception); a delivered copy is within half the id space of the receiver's release point -/
+    the application that saw the exception), and likewise each single fragment and each ping; pings are followed on substream 0,
+    whose id counter they share (on other substreams they do not appear); a delivered copy is within half the id space of the receiver's release point -/
 def Sys.opOk (env : Env) (sub : Nat) (s : Sys) : SysOp → Bool
   | .send now data =>
-    sendRefused s.a sub || ((s.a.send env now data sub).err.isNone && (s.a.send env now data sub).c.linkUp)
+    !s.pend.isEmpty || sendRefused s.a sub || ((s.a.send env now data sub).err.isNone && (s.a.send env now data sub).c.linkUp)
+  | .begin _ _ => true
+  | .frag now =>
+    match s.pend with
+    | [] => true
+    | f :: _ => (s.a.sendPacket env now (dataPacket sub f)).err.isNone && (s.a.sendPacket env now (dataPacket sub f)).c.linkUp
+  | .ping now => decide (sub = 0) && (s.a.sendPing env now).err.isNone && (s.a.sendPing env now).c.linkUp
   | .deliver j => decide (j < s.nrel + 32768 ∧ s.nrel < j + 32768) || decide (s.net.length ≤ j)
 
 def Sys.runOk (env : Env) (sub : Nat) : Sys → List SysOp → Bool
@@ -259,6 +283,26 @@ theorem send_cipher (env : Env) (hcomp : ∀ b, env.compress b = b) (now : Time)
     · rfl
     · exact sendFrags_cipher env hcomp now sub _ c n pos hs
 
+/-- `send_ping()` decomposed: the id comes from substream 0's counter, nothing is encrypted, then `transmit` -/
+theorem sendPing_eq (env : Env) (now : Time) (c : Conn) (n pos : Nat) (hs : SRel c 0 n pos) :
+    ∃ (q : Packet) (c2 : Conn), c.sendPing env now = c2.transmit env now q ∧
+      wireOf q = ⟨n, .ping, []⟩ ∧ q.substreamId = 0 ∧ hasReliable q.flags = true ∧
+      SRel c2 0 (seqNext n) pos ∧ cipherOf c2 0 = cipherOf c 0 ∧ c2.linkUp = c.linkUp ∧ c2.fragmentSize = c.fragmentSize := by
+  obtain ⟨hctr, sc, hsc, hpos⟩ := hs
+  have hrel : hasReliable (FLAG_RELIABLE + FLAG_NEED_ACK) = true := by decide
+  have hack : (hasAck (FLAG_RELIABLE + FLAG_NEED_ACK) || hasMultiAck (FLAG_RELIABLE + FLAG_NEED_ACK)) = false := by decide
+  have hne : TYPE_PING ≠ TYPE_SYN := by decide
+  have hnd : TYPE_PING ≠ TYPE_DATA := by decide
+  have hlt : 0 < c.counters.length := by
+    cases h : c.counters[0]? with
+    | none => rw [h] at hctr; cases hctr
+    | some x => exact (List.getElem?_eq_some_iff.mp h).1
+  simp only [Conn.sendPing, Conn.sendPacket, mkPacket, hack, Conn.assignIf, Bool.false_eq_true, if_false, Conn.assign, hrel, if_true,
+    hctr, hne, hnd, ne_eq, not_false_eq_true, Conn.encodeIf, false_and]
+  refine ⟨_, _, rfl, ?_, rfl, hrel, ⟨get_set_self _ _ _ hlt, sc, hsc, hpos⟩, rfl, rfl, rfl⟩
+  simp [wireOf, kindOf, hnd]
+  decide
+
 /-! ## the coupling with the L2 channel -/
 
 /-- the L2 channel state `ch` describes the system `s` (substream `sub`, cipher `ci`, fragment size `size`) -/
@@ -270,7 +314,7 @@ structure Cpl (sub : Nat) (ci : Cipher) (size : Nat) (s : Sys) (ch : Chan) : Pro
   netgood : ∀ p ∈ s.net, p.substreamId = sub ∧ hasReliable p.flags = true
   sent : s.accepted = ch.s.sent
   opn : ch.s.closing = false
-  idle : ch.s.pending = []
+  pend : ch.s.pending = s.pend
   bwf : SubWF s.b sub
   bwin : ∃ w, s.b.windows[sub]? = some w ∧ GoodWin sub w ∧ w.map wireOf = ch.r.win
   rrel : RRel s.b sub ch.r.core
@@ -279,7 +323,10 @@ structure Cpl (sub : Nat) (ci : Cipher) (size : Nat) (s : Sys) (ch : Chan) : Pro
 
 /-- the L2 operation a system step amounts to (`none`: the step changes nothing) -/
 def Sys.absOp (sub : Nat) (s : Sys) : SysOp → Option Op
-  | .send _ data => if sendRefused s.a sub then none else some (.send data)
+  | .send _ data => if !s.pend.isEmpty || sendRefused s.a sub then none else some (.send data)
+  | .begin _ data => if !s.pend.isEmpty || sendRefused s.a sub then none else some (.begin data)
+  | .frag _ => some .frag
+  | .ping _ => some .ping
   | .deliver j => some (.arrive j)
 
 def stepOpt (ci : Cipher) (size : Nat) (ch : Chan) : Option Op → Chan
@@ -303,18 +350,26 @@ theorem cpl_step (env : Env) (hcomp : ∀ b, env.compress b = b) (hdec : ∀ b, 
   cases op with
   | send now data =>
     simp only [Sys.absOp]
+    by_cases hbusy : (!s.pend.isEmpty) = true
+    · -- the lock is held: nothing happens on either side
+      simp only [hbusy, Bool.true_or, if_true, stepOpt, Sys.step]
+      exact ⟨h, fun o ho => by cases ho⟩
+    have hidle : s.pend = [] := by simpa using hbusy
+    have hbusy' : (!s.pend.isEmpty) = false := by simp [hidle]
+    have hpend0 : ch.s.pending = [] := by rw [h.pend, hidle]
     by_cases href : sendRefused s.a sub = true
     · -- refused: nothing happens on either side
       obtain ⟨hc, hem, herr⟩ := send_refused env now s.a data sub href
-      rw [if_pos href]
+      simp only [hbusy', href, Bool.false_or, if_true]
       refine ⟨?_, fun o ho => by cases ho⟩
       have : s.step env sub (.send now data) = s := by
-        simp only [Sys.step, hc, hem, herr, List.append_nil, Bool.false_and, Bool.false_eq_true, if_false]
+        simp only [Sys.step, hbusy', hc, hem, herr, List.append_nil, Bool.false_and, Bool.false_eq_true, if_false]
       rw [this]; exact h
-    · rw [if_neg href]
+    · have href' : sendRefused s.a sub = false := by cases hh : sendRefused s.a sub <;> simp_all
+      simp only [hbusy', href', Bool.false_or, Bool.false_eq_true, if_false]
       refine ⟨?_, fun o ho => by cases ho; rfl⟩
-      simp only [Sys.opOk, Bool.or_eq_true, Bool.and_eq_true] at hok
-      have hfine := hok.resolve_left href
+      simp only [Sys.opOk, hbusy', href', Bool.false_or, Bool.and_eq_true] at hok
+      have hfine := hok
       have hr := (send_refines env hcomp now s.a data sub ch.s.nextId ch.s.encPos h.srel).2
         (by simpa using hfine.1) hfine.2
       have hfr := send_frame env now s.a data sub
@@ -324,11 +379,11 @@ theorem cpl_step (env : Env) (hcomp : ∀ b, env.compress b = b) (hdec : ∀ b, 
                       encPos := ch.s.encPos + wiresLen (wiresOf ci ch.s.nextId ch.s.encPos (split size data)),
                       log := ch.s.log ++ wiresOf ci ch.s.nextId ch.s.encPos (split size data),
                       sent := if data.isEmpty then ch.s.sent else ch.s.sent ++ [data] } := by
-        simp [Sender.send, h.opn, h.idle]
-      simp only [stepOpt, Chan.step, Sys.step]
+        simp [Sender.send, h.opn, hpend0]
+      simp only [stepOpt, Chan.step, Sys.step, hbusy', Bool.false_eq_true, if_false]
       rw [hsend]
       have hacc : (s.a.send env now data sub).err.isNone = true := hfine.1
-      refine ⟨?_, ?_, ?_, ?_, ?_, ?_, h.opn, h.idle, h.bwf, h.bwin, h.rrel, h.bcipher, h.nrel⟩
+      refine ⟨?_, ?_, ?_, ?_, ?_, ?_, h.opn, h.pend, h.bwf, h.bwin, h.rrel, h.bcipher, h.nrel⟩
       · rw [hfr.1]; exact h.size
       · simp only [wiresOf_length]; exact hr.2
       · -- the cipher (key, on/off) of the substream is what it was
@@ -340,6 +395,109 @@ theorem cpl_step (env : Env) (hcomp : ∀ b, env.compress b = b) (hdec : ∀ b, 
         · exact hfr.2 p hp
       · simp only [hacc, Bool.true_and]
         cases data.isEmpty <;> simp [h.sent]
+  | begin now data =>
+    simp only [Sys.absOp]
+    by_cases hg : (!s.pend.isEmpty || sendRefused s.a sub) = true
+    · simp only [hg, if_true, stepOpt, Sys.step]
+      exact ⟨h, fun o ho => by cases ho⟩
+    · have hg' : (!s.pend.isEmpty || sendRefused s.a sub) = false := by cases hh : (!s.pend.isEmpty || sendRefused s.a sub) <;> simp_all
+      simp only [hg', Bool.false_eq_true, if_false, stepOpt, Chan.step, Sys.step]
+      refine ⟨?_, fun o ho => by cases ho; rfl⟩
+      have hidle : s.pend = [] := by
+        simp only [Bool.or_eq_false_iff] at hg'; simpa using hg'.1
+      have hpend0 : ch.s.pending = [] := by rw [h.pend, hidle]
+      have hb : ch.s.begin size data =
+          { ch.s with pending := split size data, sent := if data.isEmpty then ch.s.sent else ch.s.sent ++ [data] } := by
+        simp [Sender.begin, h.opn, hpend0]
+      rw [hb]
+      refine ⟨h.size, h.srel, h.acipher, h.log, h.netgood, ?_, h.opn, ?_, h.bwf, h.bwin, h.rrel, h.bcipher, h.nrel⟩
+      · show (if data.isEmpty then s.accepted else s.accepted ++ [data]) = _
+        rw [h.sent]
+      · show split size data = split s.a.fragmentSize data
+        rw [h.size]
+  | frag now =>
+    simp only [Sys.absOp, stepOpt, Chan.step]
+    refine ⟨?_, fun o ho => by cases ho; rfl⟩
+    cases hp : s.pend with
+    | nil =>
+      have hpend0 : ch.s.pending = [] := by rw [h.pend, hp]
+      have : ch.s.frag ci = ch.s := by simp [Sender.frag, hpend0]
+      simp only [Sys.step, hp, this]
+      exact h
+    | cons f fs =>
+      have hpendc : ch.s.pending = f :: fs := by rw [h.pend, hp]
+      simp only [Sys.opOk, hp, Bool.and_eq_true] at hok
+      obtain ⟨q, c2, heq, hwire, hs2, hc2, hl2⟩ := sendPacket_fragment_eq env hcomp now sub s.a f ch.s.nextId ch.s.encPos h.srel
+      have hfr := sendPacket_frame env now s.a (dataPacket sub f)
+      have ht := transmit_emit env now c2 q
+      rw [h.acipher] at hwire hs2 hc2
+      have hst := srel_transmit env now c2 q sub _ _ hs2
+      have hem : emitted (s.a.sendPacket env now (dataPacket sub f)) = [q] := by
+        rw [heq]
+        rcases ht.1 with h1 | h1
+        · exfalso
+          rcases h1.2 with h2 | h2
+          · rw [← heq] at h2
+            cases he : (s.a.sendPacket env now (dataPacket sub f)).err with
+            | none => rw [he] at h2; cases h2
+            | some e => rw [he] at hok; simp at hok
+          · have : (s.a.sendPacket env now (dataPacket sub f)).c.linkUp = false := by
+              rw [heq, ht.2.2.2.2]; exact h2
+            rw [this] at hok; simp at hok
+        · exact h1.1
+      have hfrag : ch.s.frag ci =
+          { ch.s with nextId := seqNext ch.s.nextId,
+                      encPos := ch.s.encPos + (if f.data.isEmpty then f.data else ci.enc ch.s.encPos f.data).length,
+                      log := ch.s.log ++ [⟨ch.s.nextId, .data f.fragId, if f.data.isEmpty then f.data else ci.enc ch.s.encPos f.data⟩],
+                      pending := fs } := by
+        simp [Sender.frag, hpendc]
+      simp only [Sys.step, hp]
+      rw [hfrag, hem]
+      refine ⟨?_, ?_, ?_, ?_, ?_, h.sent, h.opn, rfl, h.bwf, h.bwin, h.rrel, h.bcipher, h.nrel⟩
+      · rw [hfr.1]; exact h.size
+      · rw [heq]; exact hst.1
+      · rw [heq, hst.2]; exact hc2
+      · simp only [List.map_append, List.map_cons, List.map_nil, h.log, hwire]
+      · intro p hpm
+        rcases List.mem_append.mp hpm with hpm | hpm
+        · exact h.netgood p hpm
+        · have := hfr.2 p (by rw [hem]; exact hpm)
+          rw [this.1, this.2]
+          have hfl : (dataPacket sub f).flags = FLAG_RELIABLE + FLAG_NEED_ACK + FLAG_HAS_SIZE := rfl
+          rw [hfl]; exact ⟨rfl, by decide⟩
+  | ping now =>
+    simp only [Sys.absOp, stepOpt, Chan.step]
+    refine ⟨?_, fun o ho => by cases ho; rfl⟩
+    simp only [Sys.opOk, Bool.and_eq_true, decide_eq_true_eq] at hok
+    obtain ⟨⟨hsub, herr⟩, hlink⟩ := hok
+    subst hsub
+    obtain ⟨q, c2, heq, hwire, hq0, hqr, hs2, hc2, hl2, hf2⟩ := sendPing_eq env now s.a ch.s.nextId ch.s.encPos h.srel
+    have ht := transmit_emit env now c2 q
+    have hst := srel_transmit env now c2 q 0 _ _ hs2
+    have hem : emitted (s.a.sendPing env now) = [q] := by
+      rw [heq]
+      rcases ht.1 with h1 | h1
+      · exfalso
+        rcases h1.2 with h2 | h2
+        · rw [← heq] at h2
+          cases he : (s.a.sendPing env now).err with
+          | none => rw [he] at h2; cases h2
+          | some e => rw [he] at herr; simp at herr
+        · have : (s.a.sendPing env now).c.linkUp = false := by rw [heq, ht.2.2.2.2]; exact h2
+          rw [this] at hlink; cases hlink
+      · exact h1.1
+    simp only [Sys.step, Sender.ping]
+    rw [hem]
+    refine ⟨?_, ?_, ?_, ?_, ?_, h.sent, h.opn, h.pend, h.bwf, h.bwin, h.rrel, h.bcipher, h.nrel⟩
+    · rw [heq, transmit_frag, hf2]; exact h.size
+    · rw [heq]; exact hst.1
+    · rw [heq, hst.2, hc2]; exact h.acipher
+    · simp only [List.map_append, List.map_cons, List.map_nil, h.log, hwire]
+    · intro p hpm
+      rcases List.mem_append.mp hpm with hpm | hpm
+      · exact h.netgood p hpm
+      · have : p = q := List.mem_singleton.mp hpm
+        subst this; exact ⟨hq0, hqr⟩
   | deliver j =>
     simp only [Sys.absOp, stepOpt, Chan.step]
     refine ⟨?_, fun o ho => ?_⟩
@@ -366,7 +524,7 @@ theorem cpl_step (env : Env) (hcomp : ∀ b, env.compress b = b) (hdec : ∀ b, 
           have hr : ch.r = ⟨w.map wireOf, ch.r.nrel, ch.r.core⟩ := by rw [hwm]
           rw [h.bcipher] at harr hrr hci'
           rw [← hr] at harr hrr
-          refine ⟨h.size, h.srel, h.acipher, h.log, h.netgood, h.sent, h.opn, h.idle, hwf', ⟨w', hw', hgw', ?_⟩, hrr, hci', ?_⟩
+          refine ⟨h.size, h.srel, h.acipher, h.log, h.netgood, h.sent, h.opn, h.pend, hwf', ⟨w', hw', hgw', ?_⟩, hrr, hci', ?_⟩
           · rw [harr]
           · show s.nrel + _ = (Receiver.arrive ci ch.r (wireOf p)).nrel
             rw [harr, h.nrel]
@@ -448,11 +606,11 @@ theorem good_safe {sub : Nat} {ci : Cipher} {size start : Nat} {s : Sys} {ch : C
   exact out_prefix_of_inv ci start ch h.snd h.rcv
 
 theorem good_complete {sub : Nat} {ci : Cipher} {size start : Nat} {s : Sys} {ch : Chan} (h : Good sub ci size start s ch)
-    (hall : s.nrel = s.net.length) :
+    (hall : s.nrel = s.net.length) (hidle : s.pend = []) :
     (s.b.queues[sub]?.getD []) = s.accepted ∧ (s.b.eof = false → (s.b.fragBufs[sub]?.getD []) = []) := by
   have hn : ch.r.nrel = ch.s.log.length := by rw [← h.cpl.nrel, hall, ← h.cpl.log, List.length_map]
   have hc := h.rcv.core
-  rw [hn, List.take_length, sndInv_cons h.snd h.cpl.idle (Or.inl h.cpl.opn)] at hc
+  rw [hn, List.take_length, sndInv_cons h.snd (h.cpl.pend.trans hidle) (Or.inl h.cpl.opn)] at hc
   refine ⟨?_, fun hl => ?_⟩
   · rw [← h.cpl.rrel.out, h.cpl.sent, hc]
   · rw [← (h.cpl.rrel.live hl).1, hc]
@@ -491,7 +649,7 @@ theorem fresh_good (env : Env) (sub : Nat) (hsub : sub ≤ env.s.maxSubstreamId)
       netgood := fun p hp => by cases hp
       sent := rfl
       opn := rfl
-      idle := rfl
+      pend := rfl
       bwf := ⟨by simp [Sys.fresh, b, Conn.new, hn], by simp [Sys.fresh, b, Conn.new, hn], by simp [Sys.fresh, b, Conn.new, hn]⟩
       bwin := ⟨_, replicate_get _ _ _ hn, (fun kq hkq => by cases hkq), rfl⟩
       rrel := ⟨rfl, hq.symm, fun _ => ⟨hf.symm, fun _ => ⟨_, replicate_get _ _ _ hn, rfl⟩⟩⟩
